@@ -165,6 +165,14 @@ func (w *World) verifyBehavior(rep *FuncReport, fn *ssa.Function, spec *FuncSpec
 	}
 	ghosts := map[string]Value{}
 	for _, g := range beh.Ghost {
+		if g.Type == "Ord" {
+			ghosts[g.Name] = Fresh("ghost."+g.Name, SArr(SInt, SInt))
+			continue
+		}
+		if g.Type == "Bytes" {
+			ghosts[g.Name] = Fresh("ghost."+g.Name, SBytes)
+			continue
+		}
 		t := w.resolveType(spec.Pkg, g.Type)
 		if t == nil {
 			x.fail("ghost parameter " + g.Name + ": unknown type " + g.Type)
